@@ -147,7 +147,7 @@ partial def mountTags (depthM : Nat) (inGroup : Bool) : List Item → List Strin
   | [] => []
   | .mount p _ sub :: t =>
     (if depthM > 0 then ["nested"] else []) ++ (if inGroup then ["from-group"] else []) ++
-    (if p.contains 58 then ["param-prefix"] else []) ++ (if p.contains 92 then ["escaped-prefix"] else []) ++
+    (if p.contains 58 then ["param-prefix"] else []) ++ (if p.contains 42 || p.contains 43 then ["wildcard-prefix"] else []) ++ (if p.contains 92 then ["escaped-prefix"] else []) ++
     (if p != toLower p then ["upper-prefix"] else []) ++
     (if trimRight p 47 == [] then ["root-prefix"] else []) ++
     (match t with | .mount _ _ _ :: _ => ["mount-follows-mount"] | _ => []) ++
